@@ -333,6 +333,12 @@ def check_group(rec, path, regs, with_get=False, reqs=REQS):
         for n, v in regs:
             model.setdefault(n, set()).add(v)
         G = "vtgroup"
+        # looking at the group (the overview texts) is an observation: it must not change what the group lists or resolves afterwards
+        for show in (str, repr):
+            try:
+                show(g)
+            except Exception:  # noqa
+                pass
         for n in list(model) + ["vt.zz"]:
             S = sorted(model.get(n, ()))
             exp_all = [(G, n, v) for v in S]
@@ -374,6 +380,9 @@ def check_group(rec, path, regs, with_get=False, reqs=REQS):
         exp_keys = sorted((G, n, v) for n, S in model.items() for v in S)
         got_keys = [rk(r) for r in g.keys()]
         rec.check(sorted(got_keys) == exp_keys, f"c16:group:{sp}:versions:" + ("registered-version-missing" if set(exp_keys) - set(got_keys) else "extra-or-duplicate"), f"keys() expected {exp_keys}, got {got_keys}", case, fns + ["plugin/interface.py:PluginGroup.keys"])
+        for n, S in model.items():
+            mine = [k for k in got_keys if k[1] == n]
+            rec.check(mine == sorted(mine), f"c16:group:{sp}:versions:not-ascending", f"keys() lists the versions of {n!r} as {[k[2] for k in mine]} (registered {regs})", case, fns + ["plugin/interface.py:PluginGroup.keys"])
         if with_get:
             check_group_get(rec, g, sp, regs, model, case, fns)
     except Exception as e:  # noqa
